@@ -47,6 +47,13 @@ def kinds_for(u):
     raise core.MachineryError(f"no assorter kind for u={u}")
 
 
+def any_key_order(d, rng):
+    """the same selections with the keys in another insertion order (exports list a ranking by candidate, not by rank)"""
+    items = list(d.items())
+    rng.shuffle(items)
+    return dict(items)
+
+
 def votes_for(kind, cls, rng):
     """a concrete vote dict (for contest 'con') whose assorter value is that of class cls"""
     t = rng.choice(TRUTHY)
@@ -124,7 +131,7 @@ def build_cards(kind, cards, rng, snum=lambda k: k + 1):
     for k, c in enumerate(cards):
         votes = {}
         if c["cs"] != "x":
-            votes["con"] = {} if c["ph"] else dict(rng.choice(votes_for(kind, c["cs"], rng)))
+            votes["con"] = {} if c["ph"] else any_key_order(rng.choice(votes_for(kind, c["cs"], rng)), rng)
         if not c["ph"] and rng.random() < 0.4:
             votes["other"] = {"Z": 1}
         pooled = c["pool"] != "none"
@@ -137,7 +144,7 @@ def build_cards(kind, cards, rng, snum=lambda k: k + 1):
         else:
             mv = {}
             if c["ms"] != "x":
-                mv["con"] = dict(rng.choice(votes_for(kind, c["ms"], rng)))
+                mv["con"] = any_key_order(rng.choice(votes_for(kind, c["ms"], rng)), rng)
             if rng.random() < 0.3:
                 mv["other"] = {"Z": 1}
             mvrs.append(CVR(id=f"card{k}", votes=mv, phantom=False))
